@@ -83,8 +83,13 @@ pub struct WorkerSummary {
     pub discarded: BTreeMap<String, u64>,
     pub steps_total: u64,
     pub steps_max: u64,
-    pub distinct_nontrivial: BTreeSet<(u64, u64)>,
+    /// the three distinct-measures travel in binary side files (8 bytes per hash), not in
+    /// the JSON summary: a thorough run has millions of them
+    #[serde(skip)]
+    pub distinct_nontrivial: BTreeSet<u64>,
+    #[serde(skip)]
     pub distinct_interleavings: BTreeSet<u64>,
+    #[serde(skip)]
     pub distinct_shapes: BTreeSet<u64>,
     pub samples: Vec<Value>,
     pub violations: Vec<FoundViolation>,
@@ -116,13 +121,15 @@ pub fn worker_main(args: &[String]) {
     let stride: u64 = args[4].parse().unwrap();
     let worker_id: u64 = args[5].parse().unwrap();
     let min_budget: u64 = args[6].parse().unwrap();
+    // distinguishes concurrent checks of the same property (the driver's pid)
+    let tag: String = args.get(7).cloned().unwrap_or_else(|| "0".into());
     let known = load_known();
     crate::exec::install_quiet_panic_hook();
     crate::world::install_hooks();
 
     let tmp = replays_dir().join("tmp");
     std::fs::create_dir_all(&tmp).ok();
-    let wal = tmp.join(format!("{prop}-w{worker_id}.json"));
+    let wal = tmp.join(format!("{prop}-{tag}-w{worker_id}.json"));
 
     let mut sum = WorkerSummary::default();
     let mut minimised_classes: BTreeSet<String> = BTreeSet::new();
@@ -168,6 +175,7 @@ pub fn worker_main(args: &[String]) {
             }
             sum.harness_errors.push(format!("worker {worker_id} stopped after a hung run at index {index}; the rest of its slice was not explored"));
             std::fs::remove_file(&wal).ok();
+            write_hashes(&prop, &tag, worker_id, &sum);
             println!("SUMMARY {}", serde_json::to_string(&sum).unwrap());
             std::process::exit(0);
         }
@@ -185,7 +193,7 @@ pub fn worker_main(args: &[String]) {
         sum.distinct_shapes.insert(report.shape_hash);
         sum.distinct_interleavings.insert(report.inter_hash);
         if report.nontrivial {
-            sum.distinct_nontrivial.insert((report.shape_hash, report.inter_hash));
+            sum.distinct_nontrivial.insert(mix(report.shape_hash, report.inter_hash));
         }
         if let Some(d) = &report.discarded {
             *sum.discarded.entry(short_reason(d)).or_default() += 1;
@@ -244,8 +252,33 @@ pub fn worker_main(args: &[String]) {
         index += stride;
     }
     std::fs::remove_file(&wal).ok();
+    write_hashes(&prop, &tag, worker_id, &sum);
     let out = serde_json::to_string(&sum).unwrap();
     println!("SUMMARY {out}");
+}
+
+fn hash_file(prop: &str, tag: &str, worker: u64, kind: &str) -> PathBuf {
+    replays_dir().join("tmp").join(format!("{prop}-{tag}-w{worker}.{kind}.hashes"))
+}
+
+fn write_hashes(prop: &str, tag: &str, worker: u64, sum: &WorkerSummary) {
+    for (kind, set) in [("nontrivial", &sum.distinct_nontrivial), ("inter", &sum.distinct_interleavings), ("shape", &sum.distinct_shapes)] {
+        let mut bytes = Vec::with_capacity(set.len() * 8);
+        for h in set {
+            bytes.extend_from_slice(&h.to_le_bytes());
+        }
+        std::fs::write(hash_file(prop, tag, worker, kind), bytes).ok();
+    }
+}
+
+fn read_hashes(prop: &str, tag: &str, worker: u64, kind: &str, into: &mut BTreeSet<u64>) {
+    let path = hash_file(prop, tag, worker, kind);
+    if let Ok(bytes) = std::fs::read(&path) {
+        for c in bytes.chunks_exact(8) {
+            into.insert(u64::from_le_bytes(c.try_into().unwrap()));
+        }
+    }
+    std::fs::remove_file(&path).ok();
 }
 
 fn sanitize(s: &str) -> String {
@@ -331,14 +364,7 @@ pub fn check_main(cfg: CheckCfg) -> i32 {
     let exe = std::env::current_exe().expect("current_exe");
     std::fs::create_dir_all(replays_dir().join("tmp")).ok();
     std::fs::create_dir_all(PathBuf::from(VERIF_DIR).join("evidence")).ok();
-    // stale write-ahead files of this property
-    if let Ok(rd) = std::fs::read_dir(replays_dir().join("tmp")) {
-        for e in rd.flatten() {
-            if e.file_name().to_string_lossy().starts_with(&format!("{}-w", cfg.prop)) {
-                std::fs::remove_file(e.path()).ok();
-            }
-        }
-    }
+    let tag = std::process::id().to_string();
     let known = load_known();
     let workers = cfg.workers.max(1).min(cfg.runs.max(1));
     let mut children = Vec::new();
@@ -353,6 +379,7 @@ pub fn check_main(cfg: CheckCfg) -> i32 {
                 &workers.to_string(),
                 &w.to_string(),
                 &cfg.min_budget_s.to_string(),
+                &tag,
             ])
             .stdout(Stdio::piped())
             .stderr(Stdio::null())
@@ -368,9 +395,14 @@ pub fn check_main(cfg: CheckCfg) -> i32 {
         let stdout = String::from_utf8_lossy(&out.stdout);
         let summary = stdout.lines().find_map(|l| l.strip_prefix("SUMMARY ")).and_then(|j| serde_json::from_str::<WorkerSummary>(j).ok());
         match summary {
-            Some(s) => merge(&mut total, s),
+            Some(mut s) => {
+                read_hashes(&cfg.prop, &tag, w, "nontrivial", &mut s.distinct_nontrivial);
+                read_hashes(&cfg.prop, &tag, w, "inter", &mut s.distinct_interleavings);
+                read_hashes(&cfg.prop, &tag, w, "shape", &mut s.distinct_shapes);
+                merge(&mut total, s)
+            }
             None => {
-                let wal = replays_dir().join("tmp").join(format!("{}-w{w}.json", cfg.prop));
+                let wal = replays_dir().join("tmp").join(format!("{}-{tag}-w{w}.json", cfg.prop));
                 if wal.exists() {
                     crashed.push((w, wal));
                 } else {
